@@ -25,6 +25,14 @@ CHECKS = {
         note=PROOF_NOTE + "Modelled, not verified: torch/numpy slicing and torch.nn.functional.pad (pair order validated by correspondence); Fourier operators only through backward(forward(x)) = x.",
         technique="Coq proof (lia over regenerated index arithmetic, induction over tensor rank) + exact model/implementation correspondence",
         design="§6 C10"),
+    "C12": dict(
+        text="Theorems for every file list, slice filter (step 1), context size and index: per-volume ranges are contiguous/ordered/partition 0..len-1, the i-th range holds exactly the admissible slices of file i in order, "
+             "the context window has 2c+1 entries with entry j = slice s-c+j or a zero slice, and ConcatDataset's negative-index normalisation + bisect_right + offset lands in the member containing the index. "
+             "The window arithmetic, the range bookkeeping and the ConcatDataset arithmetic are regenerated from the source on every run; h5 access and list comprehension are tied by exact correspondence on generated h5 trees. "
+             "Reproducibility of the synthetic datasets (same index twice, identically constructed dataset) is decided by oracles on the implementation only.",
+        note=PROOF_NOTE + "Modelled, not verified: h5py slicing, bisect.bisect_right, numpy concatenate; numpy RandomState / sklearn make_blobs / scipy multivariate_normal behind the synthetic datasets (exercised, not proved).",
+        technique="Coq proof (induction over the file list, lia over regenerated window arithmetic) + exact correspondence on generated h5 trees + reproducibility oracles",
+        design="§6 C12"),
 }
 
 PENDING = {
